@@ -95,6 +95,7 @@ type World struct {
 	probes  map[string]int
 	viol    []violation
 	uevents []string
+	onYield func(point, key string)
 }
 
 type violation struct {
@@ -289,6 +290,7 @@ func (w *World) run() *Outcome {
 		opts = append(opts, exec.MachineCombiners)
 	}
 	interp.H = interp.Hooks{Point: w.userPoint, Record: w.record, Partition: w.userPartition}
+	exec.VerifSetYield(w.yield)
 	w.sess = exec.Start(opts...)
 
 	done := make(chan struct{})
@@ -578,6 +580,27 @@ func (w *World) userPoint(ctx context.Context, site, kind, key string) error {
 		panic(marker)
 	}
 	return nil
+}
+
+// yield is called at the simhook points inside bigslice (never under a lock).
+func (w *World) yield(point, key string) {
+	atomic.AddInt64(w.progress, 1)
+	name := "y|" + point + "|" + key
+	w.mu.Lock()
+	w.uocc[name]++
+	occ := w.uocc[name]
+	w.mu.Unlock()
+	if d := simnet.DelayFor(w.c.Config.DelayProfile, w.c.Config.DelaySeed, name, occ); d > 0 {
+		time.Sleep(d)
+	}
+	w.mu.Lock()
+	if len(w.uevents) < 200000 {
+		w.uevents = append(w.uevents, fmt.Sprintf("%d %s#%d", int64(time.Since(w.t0)), name, occ))
+	}
+	w.mu.Unlock()
+	if w.onYield != nil {
+		w.onYield(point, key)
+	}
 }
 
 func (w *World) userPartition(site, key string, nshard, p int) int {
